@@ -57,14 +57,16 @@ func VH_c10_teardown() {
 			}
 		}
 	}
-	sm.subscriptionNum = id
+	vhSetSubscriptionNum(sm, id)
 	// bindings: F1 <- one of the peers' [1].1, F4 <- the other peer's [1].1 (symbolic which)
 	bsel := verifrt.Choice("pre.bind", 4) // 0 none, 1 A->F1, 2 A->F1 & B->F4, 3 B->F1 & A->F4
+	var bnum uint64
 	addBind := func(p int, srv api.FeatureLocalInterface) {
 		r, _, dev := w.peer(p)
 		cf := r.FeatureByAddress(vhAddr(dev, []uint{1}, 1))
-		bm.bindingNum++
-		bm.bindingEntries = append(bm.bindingEntries, &api.BindingEntry{Id: bm.bindingNum, ServerFeature: srv, ClientFeature: cf})
+		bnum++
+		vhSetBindingNum(bm, bnum)
+		bm.bindingEntries = append(bm.bindingEntries, &api.BindingEntry{Id: bnum, ServerFeature: srv, ClientFeature: cf})
 		binds = append(binds, ref{p, vhEntKey(NewAddressEntityType([]uint{1})), cf})
 	}
 	switch bsel {
